@@ -182,7 +182,13 @@ impl WebSocket for SimWs {
         let item = l.ends[1 - self.me].wire.pop_front().unwrap();
         l.ends[self.me].rcv_log = Some(item.clone());
         match item {
-            WireItem::Msg(m) => Poll::Ready(Some(Ok(m))),
+            WireItem::Msg(m) => {
+                // RFC 6455: nothing follows a Close frame; a real WebSocket stream ends after it
+                if m == Message::Close {
+                    l.ends[self.me].fused = true;
+                }
+                Poll::Ready(Some(Ok(m)))
+            }
             WireItem::Eos => {
                 l.ends[self.me].fused = true;
                 Poll::Ready(None)
@@ -968,6 +974,9 @@ impl Sim {
                             Err(er) => err_kind(&er).to_string(),
                         };
                         self.eps[i].task_res = Some(k.clone());
+                        // the WebSocket object is destroyed with the task: the transport closes and
+                        // the peer's source ends after whatever is still in flight
+                        self.link.lock().unwrap().ends[i].wire.push_back(WireItem::Eos);
                         k
                     }
                 };
